@@ -5,7 +5,7 @@
            POLLOUT was <wout> = 0/1 requested)  I<ev> (uv__stream_io entered with <ev>)
            X (a uv_write from our side, any outcome)
    beh:    what the k-th read callback does: S<tok> T C
-   allocs: what the k-th alloc callback returns, cyclically: <len> | n<len> (base NULL)
+   allocs: what the k-th alloc callback returns, cyclically: <len> | n<len> (base NULL) | k (buf left untouched)
    oracle: answers of read/recvmsg in order: d<n> a z e<errno> i
    prints the canonical trace (see harness/c06_read.c). *)
 let parse_cop (tok : string) : cop =
@@ -40,6 +40,7 @@ let parse_ans (tok : string) : ans =
   | _ -> failwith ("bad answer " ^ tok)
 
 let parse_alloc (tok : string) : abuf =
+  if tok = "k" then { b_base = false; b_len = z_of_int 0 } else   (* untouched buf = what libuv zeroed *)
   if tok.[0] = 'n' then { b_base = false; b_len = z_of_string (String.sub tok 1 (String.length tok - 1)) }
   else { b_base = true; b_len = z_of_string tok }
 
@@ -86,14 +87,14 @@ let case (line : string) : string =
   | _ -> failwith "bad case"
 
 (* mode "mon": a trace in the canonical format (the implementation's own, harness-only
-   upper-case tokens W G H Q U K M B V Y O D Z E N skipped) is parsed back into events and judged by the
+   upper-case tokens W G H Q U K M B V Y O D Z E N J skipped) is parsed back into events and judged by the
    extracted checker Spec/StreamReadSpec.v [monitor]; prints four 0/1 digits:
    exact stream, alloc paired, silent until restart, no NULL call *)
 let parse_event (tok : string) : event option =
   let arg = String.sub tok 1 (String.length tok - 1) in
   let nat_ s = nat_of_int (int_of_string s) in
   match tok.[0] with
-  | 'W' | 'G' | 'H' | 'Q' | 'U' | 'K' | 'M' | 'B' | 'V' | 'Y' | 'O' | 'D' | 'Z' | 'E' | 'N' -> None
+  | 'W' | 'G' | 'H' | 'Q' | 'U' | 'K' | 'M' | 'B' | 'V' | 'Y' | 'O' | 'D' | 'Z' | 'E' | 'N' | 'J' -> None
   | 'P' -> Some (EPoll (z_of_string arg))
   | 'A' ->
       let arg = if String.length arg > 0 && arg.[0] = '!' then String.sub arg 2 (String.length arg - 2) else arg in
